@@ -191,7 +191,7 @@ func genAssign(r *h.Rand) string {
 
 // ---------------------------------------------------------------- template source
 
-var textAlphabet = []string{"a", "b", " ", "  ", "\n", "\t", "\r\n", "{", "}", "*", "-", "é", "日本", "<b>", "&", "{ {", "}}x"[2:], "%", "[", "]", "<", "#", "@", "\x00", "\xff"}
+var textAlphabet = []string{"a", "b", " ", "  ", "\n", "\t", "\r\n", "\v", "\f", "\u00a0", "\u2028", "\u0085", "{", "}", "*", "-", "é", "日本", "<b>", "&", "{ {", "}}x"[2:], "%", "[", "]", "<", "#", "@", "\x00", "\xff"}
 
 func genText(r *h.Rand) string {
 	n := 1 + r.Intn(6)
